@@ -454,6 +454,7 @@ def compile_sim(module, clocks=None, observe=None, keep=None, ticksets=None, for
     for s in sync_targets:
         nb = len(s); lay.append((s, off, nb)); off += nb
     fnames = {}
+    peek_src = []
     for ti, ts in enumerate(ticksets):
         fn = "cycle_%d" % ti; fnames[tuple(ts)] = fn
         src.append("def %s(S, I):" % fn)
@@ -475,6 +476,17 @@ def compile_sim(module, clocks=None, observe=None, keep=None, ticksets=None, for
             for s in needed_comb: src.append("        %s = %s_n" % (g.n(s), g.n(s)))
             src.append("        if _old == (%s,): break" % ", ".join(g.n(s) for s in needed_comb))
             src.append("    else: raise RuntimeError('comb did not settle')")
+        if ti == 0:
+            # comb-only evaluation (no clock edge): used by harnesses that close a combinational path through the environment
+            # (asynchronous-read memories cut out of the netlist)
+            k0 = None
+            for k_, line in enumerate(src):
+                if line.startswith("def %s(" % fn): k0 = k_
+            body_lines = src[k0 + 1:]
+            peek_src.append("def peek(S, I):")
+            peek_src.extend(body_lines)
+            peek_src.append("    return (%s)" % "".join(g.n(s) + ", " for s in observe))
+            peek_src.append("")
         for s in sync_targets: src.append("    %s_x = %s" % (g.n(s), g.n(s)))
         kept = set(sync_targets)
         for gi in sorted(need_regs):
@@ -485,11 +497,13 @@ def compile_sim(module, clocks=None, observe=None, keep=None, ticksets=None, for
         pack = " | ".join("((%s_x & %d) << %d)" % (g.n(s), (1 << nb) - 1, o) for s, o, nb in lay) or "0"
         src.append("    return (%s), (%s)" % (pack, "".join(g.n(s) + ", " for s in observe)))
         src.append("")
+    src += peek_src
     code = "\n".join(src); ns = {}
     exec(compile(code, "<fhdl-mc>", "exec"), ns)
     c = Compiled()
     c.cycles = {ts: ns[fn] for ts, fn in fnames.items()}
     c.cycle = ns[fnames[tuple(ticksets[0])]]
+    c.peek = ns["peek"]
     c.ticksets = [tuple(t) for t in ticksets]
     c.state = sync_targets; c.dropped = dropped; c.all_regs = sync_targets_all
     c.inputs = inputs; c.ii = {s: i for i, s in enumerate(inputs)}
@@ -534,6 +548,14 @@ class SimDriver:
                 ev.execute(sim.fragment.sync[d])
         sim._commit_and_comb_propagate()
         return O
+
+    def peek(self, I):
+        """comb-only: apply inputs, settle, sample outputs (no clock edge)"""
+        c = self.c; ev = self.ev
+        for s, v in zip(c.inputs, I):
+            ev.assign(s, v)
+        self.sim._commit_and_comb_propagate()
+        return tuple(self.value(s) for s in c.outputs)
 
     def state(self):
         return self.c.pack({s: self.value(s) for s in self.c.state})
@@ -596,3 +618,23 @@ def compile_harness(module, reads, **kw):
         return lambda S, I, O: v          # never driven, never read by the netlist
     c.rd = rd
     return c
+
+
+def cut_memories(module):
+    """Removes every Memory (and its ports) from the module's fragment and returns (fragment, [memory descriptions]).
+    The ports' address/data/enable signals stay in the netlist: adr/dat_w/we/re are ordinary outputs of the logic, dat_r becomes a
+    free input.  The harness environment then plays the memory primitive with Migen's semantics (sparse contents), which keeps
+    large memories (DRAM bank arrays) out of the packed state.  Only the primitive itself is replaced: every address, data and
+    enable computation of the design is still explored and replayed on Migen's evaluator."""
+    from migen.fhdl.specials import Memory, _MemoryPort
+    f = module.get_fragment()
+    mems = [m for m in f.specials if isinstance(m, Memory)]
+    out = []
+    for m in sorted(mems, key=lambda m: m.duid):
+        ports = []
+        for p in m.ports:
+            ports.append(dict(adr=p.adr, dat_r=p.dat_r, dat_w=p.dat_w, we=p.we, re=p.re, async_read=p.async_read,
+                              granularity=p.we_granularity, clock=p.clock.cd, mode=p.mode))
+        out.append(dict(memory=m, width=m.width, depth=m.depth, init=list(m.init or []), ports=ports))
+    f.specials = set(x for x in f.specials if not isinstance(x, (Memory, _MemoryPort)))
+    return f, out
